@@ -10,6 +10,12 @@ fn cps(s: &str) -> Value {
 	Value::Array(s.chars().map(|c| json!(c as u32)).collect())
 }
 
+/// k ASCII letters, then a two-octet character, then a short ASCII tail
+fn long_bad(tok: &str) -> String {
+	let k: usize = tok["long-nonascii-".len()..].parse().unwrap_or(0);
+	format!("{}\u{e9}xyz", "a".repeat(k))
+}
+
 struct Opts {
 	alg: String,
 	sans: Vec<(String, Option<Vec<u8>>)>,
@@ -33,6 +39,8 @@ fn concretise(c: &Value, rng: &mut Rng) -> Opts {
 			"nonascii" => Some("Br\u{e9}sil".to_string()),
 			"empty" => Some(String::new()),
 			"utf8" => Some(format!("n\u{e4}me {}", random_text("utf8", rng, 6).replace('\0', "x"))),
+			t if t.starts_with("long-nonascii-") => Some(long_bad(t)),
+			t if t.starts_with("long-printable-") => Some("Ab".repeat(t["long-printable-".len()..].parse::<usize>().unwrap_or(1)).chars().take(t["long-printable-".len()..].parse::<usize>().unwrap_or(1)).collect()),
 			other => Some(other.to_string()),
 		}
 	};
@@ -61,6 +69,7 @@ fn concretise(c: &Value, rng: &mut Rng) -> Opts {
 				let a: [u8; 16] = b.clone().try_into().unwrap();
 				(std::net::Ipv6Addr::from(a).to_string(), Some(b))
 			},
+			t if t.starts_with("long-nonascii-") => (long_bad(t), None),
 			_ => ("b\u{fc}cher.example".to_string(), None),
 		})
 		.collect();
